@@ -176,4 +176,42 @@ theorem tr_switchSF (e : Int64) (fb S : UInt64) (l r : Bool) (maxExp minExp : In
   simp only [Translated.ufloatSwitchSF, sfBounds, tr_bitmask64, hfb, i32_beq_iff, he, Bool.and_eq_true, decide_eq_true_eq,
     beq_iff_eq]
 
+/-! ### the loop of `genUfloatRange` that clears low bits -/
+
+theorem tr_clearLoop (maxR : Int64) (r sfMin : UInt64) (hb : (maxR.toUInt64 - r).toNat ≤ 64) :
+    ∀ (fuel : Nat) (i sf : UInt64), i ≤ maxR.toUInt64 - r → ((maxR.toUInt64 - r) - i).toNat ≤ fuel →
+      Translated.ufloatClearLoop maxR r sfMin fuel i sf = clearLow sfMin ((maxR.toUInt64 - r) - i).toNat i.toNat sf := by
+  intro fuel
+  induction fuel with
+  | zero =>
+    intro i sf _ hf
+    have : ((maxR.toUInt64 - r) - i).toNat = 0 := by omega
+    rw [this]; rfl
+  | succ n ih =>
+    intro i sf hi hf
+    simp only [Translated.ufloatClearLoop, decide_eq_true_eq]
+    have hi' := UInt64.le_iff_toNat_le.mp hi
+    have hsub : ((maxR.toUInt64 - r) - i).toNat = (maxR.toUInt64 - r).toNat - i.toNat := UInt64.toNat_sub_of_le _ _ hi
+    by_cases hlt : i < maxR.toUInt64 - r
+    · have hlt' := UInt64.lt_iff_toNat_lt.mp hlt
+      simp only [hlt, if_true]
+      have hi1 : (i + 1).toNat = i.toNat + 1 := by
+        rw [UInt64.toNat_add]; simp only [UInt64.toNat_one]; apply Nat.mod_eq_of_lt; omega
+      have hle1 : i + 1 ≤ maxR.toUInt64 - r := by rw [UInt64.le_iff_toNat_le, hi1]; omega
+      have hsub1 : ((maxR.toUInt64 - r) - (i + 1)).toNat = (maxR.toUInt64 - r).toNat - (i.toNat + 1) := by
+        rw [UInt64.toNat_sub_of_le _ _ hle1, hi1]
+      have hcnt : ((maxR.toUInt64 - r) - i).toNat = ((maxR.toUInt64 - r) - (i + 1)).toNat + 1 := by omega
+      rw [hcnt]
+      simp only [clearLow]
+      rw [go_shl64_lt _ _ (by omega), nat_toUInt64_of_toNat]
+      split
+      · rfl
+      · rw [ih (i + 1) _ hle1 (by omega), hi1]
+    · have heq : i.toNat = (maxR.toUInt64 - r).toNat := by
+        have : ¬ i.toNat < (maxR.toUInt64 - r).toNat := fun h => hlt (UInt64.lt_iff_toNat_lt.mpr h)
+        omega
+      simp only [hlt, if_false]
+      have : ((maxR.toUInt64 - r) - i).toNat = 0 := by omega
+      rw [this]; rfl
+
 end Rapid
